@@ -210,6 +210,13 @@ Definition carriesb (f : frag) (x : N) : bool := (f_off f <=? x) && (x <? f_end 
 Definition covers (fs : list frag) (p : bytes) : Prop :=
   forall x, x < blen p -> exists f, In f fs /\ carries f x.
 
+(** ** Compact constructors for the correspondence run (octet strings as [unhex len 0x..]) *)
+
+Definition bk (ty num : N) (len : nat) (hex : N) : blk := (ty, num, unhex len hex).
+
+Definition mkf (s t q off total : N) (len : nat) (hex : N) (bl : list blk) : frag :=
+  mkFrag (s, t, q) off total (unhex len hex) bl.
+
 (** ** Rendering for the correspondence run (lists, pairs, numbers only) *)
 
 Definition render_id (k : ident3) : list N := let '(a, b, c) := k in [a; b; c].
